@@ -16,7 +16,7 @@
    ([Printer.full_policy]) nothing is excluded.  [C09_former_witnesses_roundtrip]: the witnesses of
    the 60 pairs the commit repaired come back. *)
 From IronCalc Require Import Base.Prelude Codec.RefA1 Syntax.Token Syntax.Ast Syntax.Printer Syntax.Parser
-  Syntax.Shape Syntax.ShapeProofs Syntax.GlueProofs Syntax.RoundTrip Syntax.FixedProofs Syntax.FuelProofs Syntax.Refuted.
+  Syntax.Shape Syntax.ShapeProofs Syntax.GlueProofs Syntax.RoundTrip Syntax.FixedProofs Syntax.FuelProofs Syntax.FullRange Syntax.FullRangeProofs Syntax.Refuted.
 
 (* the property at full strength: every tree the parser can return, in every text form, comes
    back from the tokens the lexer reads from its printed text *)
@@ -93,6 +93,20 @@ Theorem C09_repaired_parse :
   parse m nm env (print_fixed m nm e) = Some (e, []).
 Proof. exact roundtrip_parse_fixed. Qed.
 Print Assumptions C09_repaired_parse.
+
+(* the whole-row / whole-column tests of the RangeKind arms, pinned: all four conjuncts on the stored
+   fields (the correspondence compares them with what the implementation's text omits, "FR" cases) *)
+Theorem C09_full_column_pinned :
+  forall p1 p2, full_column p1 p2 = true <->
+  p_abs_col p1 = true /\ p_abs_col p2 = true /\ p_col p1 = 1 /\ p_col p2 = LAST_COLUMN.
+Proof. exact full_column_iff. Qed.
+Print Assumptions C09_full_column_pinned.
+
+Theorem C09_full_row_pinned :
+  forall p1 p2, full_row p1 p2 = true <->
+  p_abs_row p1 = true /\ p_abs_row p2 = true /\ p_row p1 = 1 /\ p_row p2 = LAST_ROW.
+Proof. exact full_row_iff. Qed.
+Print Assumptions C09_full_row_pinned.
 
 (* non-vacuity: -(2^3)%+(1<2)*SUM(,R[0]C[0])  — stored form, all hypotheses hold *)
 Example C09_partial_nonvacuous :
